@@ -305,6 +305,10 @@ def flaky_fn(_xv=None, **kw):
             raise ValueError(msg)
         if exc == "eof":
             raise EOFError(msg)
+        if exc == "notfound":
+            raise FileNotFoundError(msg)      # (an OSError, like the ones
+        if exc == "timeout":                  # a function reading its own
+            raise TimeoutError(msg)           # input files may raise)
         if exc == "unpicklable":
             # no exception here: the RESULT cannot be written to disk
             return (i for i in (1, 2, 3))
